@@ -20,8 +20,8 @@ THOROUGH_RUNS = 60000
 QUICK_WALL = 120
 THOROUGH_WALL = 1700
 CHUNK = 20
-XPROC_QUICK = dict(batches=4, per_batch=40, hashseeds=4)
-XPROC_THOROUGH = dict(batches=32, per_batch=60, hashseeds=4)
+XPROC_QUICK = dict(batches=4, per_batch=250, hashseeds=4)
+XPROC_THOROUGH = dict(batches=32, per_batch=400, hashseeds=4)
 RULE = ("one run = one scenario (seeded component x problem x parameters x seed) executed in a reference environment and in several "
         "perturbed ones drawn by the scheduler: other prior states of the global random/numpy/torch generators, interference "
         "injected mid-run at model call-backs, listener call-backs and private-stream draws, reused learner/planner objects, models "
@@ -150,7 +150,9 @@ class Cotenant:
             _pyrandom.shuffle([1, 2, 3])
             np.random.randint(10)
         self.sched.fire('F3_global_rng_interference')
-        self.log.append((where.split('#')[0], k))
+        # only the kind is logged: which call-back a given injection lands on may depend on msdm's own
+        # (hash-seed dependent) iteration order, which is not the harness's nondeterminism
+        self.log.append(k)
         self.last = gsnap()
         self.where = where
 
@@ -297,7 +299,7 @@ def execute(case, script=None):
     except (Violation, Inconclusive) as e:
         raise ctx.attach_partial(e)
     out = ctx.result()
-    out['digest'] = digest_of([sc, case['envs'], injlog])
+    out['digest'] = digest_of([sc, case['envs'], injlog, refd])
     out['nontrivial'] = 'result' in ref and ctx.clauses > 0
     return out
 
@@ -359,7 +361,8 @@ def run_children(jobs, timeout=900):
 
 def xproc_scenario(seed, i):
     rng = _pyrandom.Random(f"{seed}:C13:xproc:{i}")
-    sc = S.gen_scenario(rng)
+    # keys whose hash (or order) depends on the interpreter's hash seed: strings, tuples of strings, frozendicts
+    sc = S.gen_scenario(rng, component=S.COMPONENTS[i % len(S.COMPONENTS)], kinds=('str', 'tuple', 'fd', 'fd'))
     return sc
 
 
